@@ -1,7 +1,7 @@
 """C16 — WASI file operations behave like a POSIX-style reference model.
 Streams: table (descriptor.Table vs Sys/DescTable.v), readdir (fd_readdir vs Sys/Dirent.v),
 fs (WASI calls through a proxy guest on a real temp dir vs Sys/FsModel.v)."""
-import json, os
+import json, os, re
 from vcheck import *
 
 
@@ -87,9 +87,113 @@ def table_sig(c, j):
 
 
 # ------------------------------------------------------------------------------------------------
+# stream B: fd_readdir
+
+# Large byte strings are passed as lists of primitive 63-bit integers holding 7 bytes each (one term node
+# per literal; Z/string literals cost one node per bit and made Coq spend ~100 us per byte on parsing).
+PACK_PRELUDE = ("From Coq Require Import Uint63.\n"
+                "Fixpoint num7 (l : list int) : Z := match l with [] => 0 | x :: r => Uint63.to_Z x + 72057594037927936 * num7 r end.\n")
+
+
+def num7(b):
+    """bytes (memory order) as the little-endian number they denote"""
+    return "(num7 [%s])" % "; ".join("0x%s%%uint63" % b[i:i + 7][::-1].hex() for i in range(0, len(b), 7))
+
+
+def rd_dir_def(c):
+    ents = "; ".join("{| d_name := le %d %s; d_ino := %d; d_type := %d |}" % (len(e["name"].encode()), num7(e["name"].encode()), e["ino"], e["type"])
+                     for e in (c.get("list") or []))
+    return "[%s]" % ents
+
+
+def rd_num(hexs):
+    return num7(bytes.fromhex(hexs))
+
+
+def rd_coq_case(c, dirname):
+    calls = "; ".join("(%d, %d, (%s, %d, %s))" % (k["buf_len"], k["cookie"], zs(k["errno"]), k["used"] if k["errno"] == 0 else 0,
+                                                   rd_num(k["buf"]) if k["errno"] == 0 else "0") for k in (c.get("calls") or []))
+    return "(%d, %s, %d, [%s])" % (c.get("dot_ino", 0), dirname, c.get("fill", 0), calls)
+
+
+def rd_parse(buf, used):
+    """complete entries as a WASI guest (wasi-libc readdir) extracts them; also the trailing header if present"""
+    pos, es, hdr = 0, [], None
+    while pos + 24 <= used:
+        dnext = int.from_bytes(buf[pos:pos + 8], "little")
+        ino = int.from_bytes(buf[pos + 8:pos + 16], "little")
+        nl = int.from_bytes(buf[pos + 16:pos + 20], "little")
+        ty = int.from_bytes(buf[pos + 20:pos + 24], "little")
+        if pos + 24 + nl > used:
+            hdr = (dnext, ino, nl, ty)
+            break
+        es.append((dnext, ino, ty, buf[pos + 24:pos + 24 + nl].decode("latin1")))
+        pos += 24 + nl
+    return es, hdr, pos
+
+
+def rd_oracle(c):
+    if c["obs"] and c["obs"][0][0] == "bad-listing":
+        return "first full listing of a directory with %d entries returned %s" % (c["obs"][0][1], c["ops"])
+    lst = [(".", c["dot_ino"], 3), ("..", 0, 3)] + [(e["name"], e["ino"], e["type"]) for e in (c.get("list") or [])]
+    n = len(lst)
+    valid = {0}
+    for j, k in enumerate(c["calls"]):
+        bl, ck, en = k["buf_len"], k["cookie"], k["errno"]
+        if bl < 24:
+            if en != 28:
+                return "call %d: buf_len %d < 24 returned errno %d, not EINVAL" % (j, bl, en)
+            continue
+        if en != 0:
+            if ck in valid:
+                return "call %d: cookie %d (0, the previous cookie or a d_next just returned) failed with errno %d %s" % (j, ck, en, k.get("trap", ""))
+            if en != 44:
+                return "call %d: invalid cookie %d returned errno %d, not ENOENT %s" % (j, ck, en, k.get("trap", ""))
+            continue
+        buf, used = bytes.fromhex(k["buf"]), k["used"]
+        if used > bl:
+            return "call %d: bufused %d > buf_len %d" % (j, used, bl)
+        es, hdr, pos = rd_parse(buf, used)
+        for i, (dnext, ino, ty, name) in enumerate(es):
+            idx = ck + i
+            if idx >= n:
+                return "call %d: entry %r beyond the end of the listing" % (j, name)
+            if name != lst[idx][0]:
+                return "call %d: cookie %d entry %d is %r, expected %r (skipped or duplicated)" % (j, ck, i, name, lst[idx][0])
+            if dnext != idx + 1:
+                return "call %d: d_next of entry %r is %d, expected %d" % (j, name, dnext, idx + 1)
+            if (ino, ty) != lst[idx][1:]:
+                return "call %d: entry %r inode/type %s differ from the first listing %s" % (j, name, (ino, ty), lst[idx][1:])
+        nxt = ck + len(es)
+        if nxt < n and used != bl:
+            return "call %d: entries remain (next index %d of %d) but bufused %d != buf_len %d: not reported truncated" % (j, nxt, n, used, bl)
+        if used < bl and nxt != n and ck <= n:
+            return "call %d: bufused %d < buf_len %d signals the end at index %d of %d" % (j, used, bl, nxt, n)
+        if hdr is not None and nxt < n and (hdr[0] != nxt + 1 or hdr[2] != len(lst[nxt][0])):
+            return "call %d: truncated header %s does not describe entry %d" % (j, hdr, nxt)
+        if any(b != c["fill"] for b in buf[used:]):
+            return "call %d: bytes beyond bufused were modified" % j
+        if ck < n and bl >= 24 + len(lst[ck][0]) and not es:
+            return "call %d: buf_len %d can hold entry %d but no complete entry was returned" % (j, bl, ck)
+        valid = {0, ck} | {e[0] for e in es}
+    return None
+
+
+def rd_sig(c, j):
+    calls = c.get("calls") or []
+    k = calls[j] if j is not None and 0 <= j < len(calls) else None
+    sig = {"stream": "readdir"}
+    if k:
+        sig["cookie"] = k["kind"]
+        sig["buf"] = "small" if k["buf_len"] < 24 else ("headers-only" if k["buf_len"] < 40 else "normal")
+    return sig
+
+
+# ------------------------------------------------------------------------------------------------
 
 STREAMS = {
     "table": dict(mod="Sys.DescTable", case=table_coq_case, oracle=table_oracle, sig=table_sig, shard=150),
+    "readdir": dict(mod="Sys.Dirent", case=rd_coq_case, oracle=rd_oracle, sig=rd_sig, shard=400, dirs=rd_dir_def, prelude=PACK_PRELUDE),
 }
 
 
@@ -100,9 +204,16 @@ def eval_stream(ck, name, cases):
     SH = st["shard"]
     for s in range(0, len(cases), SH):
         shard = cases[s:s + SH]
-        v = ("From Verif Require Import Lib.GoInt %s.\nOpen Scope Z_scope.\n" % st["mod"] +
-             st.get("prelude", "") +
-             "Definition cases : list case := [\n" + ";\n".join(st["case"](c) for c in shard) + "].\n"
+        prelude, render = st.get("prelude", ""), st["case"]
+        if "dirs" in st:   # share one definition per directory between the scripts that read it
+            names = {}
+            for c in shard:
+                if c["dir"] not in names:
+                    names[c["dir"]] = "dir_%d" % len(names)
+                    prelude += "Definition %s : list dirent := %s.\n" % (names[c["dir"]], st["dirs"](c))
+            render = lambda c: st["case"](c, names[c["dir"]])
+        v = ("From Verif Require Import Lib.GoInt %s.\nOpen Scope Z_scope.\n" % st["mod"] + prelude +
+             "Definition cases : list case := [\n" + ";\n".join(render(c) for c in shard) + "].\n"
              "Definition M := Eval vm_compute in mismatches 0 cases.\nPrint M.\n")
         rc, o = coq_eval("c16_%s_%d" % (name, s), v)
         lst = parse_zlist(o, "M")
@@ -128,7 +239,8 @@ def run(tier, seed):
     if not binp:
         ck.violation("harness-build", {"kind": "build"}, {"log": log[-3000:]}, no_input=True)
         return ck.finish()
-    rc, out = sh([binp, "-seed", str(seed), "-table", str(n_table)], timeout=3000)
+    n_dirs, n_scripts = (60, 5) if quick else (1500, 12)
+    rc, out = sh([binp, "-seed", str(seed), "-table", str(n_table), "-dirs", str(n_dirs), "-scripts", str(n_scripts)], timeout=3000)
     by = {k: [] for k in STREAMS}
     for ln in out.split("\n"):
         if ln.startswith("{"):
@@ -170,7 +282,11 @@ def run(tier, seed):
             j = mism.get(idx)
             if why is None and j is None:
                 continue
-            sig = st["sig"](c, j)
+            jj = j
+            if why is not None:   # the oracle's own position wins for the signature
+                m = re.match(r"(?:call|op) (\d+)", why)
+                if m: jj = int(m.group(1))
+            sig = st["sig"](c, jj)
             sig["kind"] = "property-fails" if why is not None else "model-differs"
             key = json.dumps(sig, sort_keys=True)
             if key in reported:
